@@ -3,7 +3,7 @@ import json, os, re
 from lib import vf, cbuild
 from gen import tdma_sched
 from props import c08_gsmtime_part as gsmtime      # part "gsmtime": layer1/sched_gsmtime.c on top of the TDMA scheduler
-GSMTIME_PART = False      # switched off until the part is adapted to the re-entrant TDMA scheduler model (integration in progress)
+GSMTIME_PART = True
 
 ID = "C08"
 LEVEL = "proof"
